@@ -4,12 +4,14 @@ from __future__ import annotations
 from .. import alphabets as A
 from .. import gaps, gens
 from ..core import Run, Stats, fanout
-from ..envmodel import EnvCfg, explore_env, replay_env
+from ..envmodel import EnvCfg, explore_env, replay_env  # noqa: F401
 
 SA = ("superadditive", "superadditive_cached")
 
 
 def unit(u) -> Stats:
+    if u[0] == "instance":
+        return instance_unit(u)
     n, games, comp, gap_name, budget, tag, depth = u[:7]
     known_extra = u[7] if len(u) > 7 else ()
     ftol = 0.0
@@ -28,6 +30,57 @@ def unit(u) -> Stats:
     if n == 3 and tag == "exact3" and comp == "superadditive" and gap_name == "l1_norm" and budget is None:
         st.sample({"n": n, "hidden_games": [list(g) for g in resolved], "computer": comp, "gap": gap_name, "ops": ["step(a)", "unstep(a)", "reset"],
                    "model_states": st.counters.get("env_model_states")})
+    return st
+
+
+def instance_unit(u) -> Stats:
+    """Environments handed out by one ModelInstance (as make_vec_env / evaluate() do) are independent of each other: operations on one
+    never show in the other. Both are driven through an interleaved history; each is compared with the reference for ITS OWN history."""
+    _, n, generator, comp, gap_name, gen_seed = u
+    from incomplete_cooperative.run.model import ModelInstance
+    from ..envmodel import Reference, compare_reference
+    st = Stats()
+    doc = {"engine": "instance", "n": n, "generator": generator, "computer": comp, "gap": gap_name, "gen_seed": gen_seed}
+    try:
+        inst = ModelInstance(number_of_players=n, game_class=comp, game_generator=generator, gap_function=gap_name, seed=gen_seed)
+        a, b = inst.get_env(), inst.get_env()
+    except Exception as e:  # noqa: BLE001
+        st.violation(f"[instance n={n} {generator}] get_env raised {type(e).__name__}: {e}", **doc)
+        return st
+    m = len(a.explorable_coalitions)
+    script = [("a", "step", 0), ("b", "reset", None), ("b", "step", m - 1), ("a", "step", 1), ("b", "step", 0), ("a", "unstep", 0), ("b", "reset", None),
+              ("a", "step", 2 % m), ("b", "step", 1)]
+    state = {"a": [a, frozenset()], "b": [b, frozenset()]}
+    hist = []
+    for who, op, arg in script:
+        env, R = state[who]
+        try:
+            if op == "reset":
+                env.reset()
+                R = frozenset()
+            else:
+                if (op == "step") == (arg in R):
+                    continue
+                getattr(env, op)(arg)
+                R = R | {arg} if op == "step" else R - {arg}
+        except Exception as e:  # noqa: BLE001
+            st.violation(f"[instance n={n} {generator}] env {who}: {op}({arg}) raised {type(e).__name__}: {e} after {hist}", history=[list(map(str, h)) for h in hist], **doc)
+            return st
+        state[who][1] = R
+        hist.append((who, op, arg))
+        st.transitions += 1
+        for w2 in ("a", "b"):            # BOTH environments must still show exactly their own history
+            e2, R2 = state[w2]
+            v = tuple(float(x) for x in e2.full_game.get_values())
+            cfg = EnvCfg(n, [v], comp, gap_name, None, "instance", gens.float_tol(v, n))
+            msg = compare_reference(cfg, Reference(cfg), e2, 0, R2, len(R2))
+            st.evals += 1
+            if msg:
+                st.violation(f"[instance n={n} {generator} {comp}] after the interleaved history {hist}, environment {w2} (own reveals {sorted(R2)}): {msg}",
+                             history=[list(map(str, h)) for h in hist], **doc)
+                return st
+        st.states += 1
+        st.nontrivial += 1
     return st
 
 
@@ -86,6 +139,13 @@ def units(run: Run):
     us.append((6, [dict(A.larger_n_samples(6))["path-shift"]], SA[0], "l1_norm", None, "exact6-minimal-depth1", 1))
     us.append((5, [A.budget_game(5, 3)], "sam_apx_1", "l1_norm", None, "budget5-3-depth2", 2))
     us.append((5, [A.budget_game(5, 2)], "sam_apx_1", "linf_norm", 2, "budget5-2-depth2", 2))
+    for k, (generator, n_) in enumerate((("noisy_factory", 3), ("xos", 4), ("graph_random", 3), ("k_budget_generator", 4))):
+        us.append(("instance", n_, generator, SA[k % 2], gaps.NAMES[k % 4], seed + k))
+    # float hidden games that become tight before everything is revealed (unit-demand games with all demands on one player)
+    for k, name in enumerate(("xs2", "xs3", "xs2")):
+        for s_ in gens.seed_window(seed, 6 if quick else 16):
+            us.append((4 if k < 2 else 5, [("GEN", name, 4 if k < 2 else 5, s_)], SA[1], "exploitability", (None, 3)[s_ % 2], f"gen:{name}:{s_}", 1 if k == 2 else 2,
+                       tuple(c for c in range(16) if A.popcount(c) == 2) if k < 2 else tuple(c for c in range(32) if A.popcount(c) in (2, 3))))
     g7 = dict(A.larger_n_samples(7))["matching-shift"]
     us.append((7, [g7], SA[1], "l1_norm", 2, "exact7-depth1", 1))
     us.append((7, [A.budget_game(7, 2)], "sam_apx_1", "linf_norm", None, "budget7-depth1", 1))
@@ -97,6 +157,8 @@ def units(run: Run):
 
 
 def cost(u) -> float:
+    if u[0] == "instance":
+        return 50
     if u[0] >= 5:
         return 3000
     if len(u) > 7 and u[7]:
@@ -119,4 +181,8 @@ def run(run: Run) -> None:
 
 
 def replay(doc: dict):
+    if doc.get("engine") == "instance":
+        st = instance_unit(("instance", doc["n"], doc["generator"], doc["computer"], doc["gap"], doc["gen_seed"]))
+        msgs = [v["message"] for v in st.violations]
+        return bool(msgs), "; ".join(msgs[:2]) if msgs else "environments of one ModelInstance are independent on this history"
     return replay_env(doc)
